@@ -51,6 +51,16 @@ impl Payload for M {
     fn encode(self, mut w: impl WriteBytes) -> Result<(), Box<dyn std::error::Error + Send + Sync>> { w.write(&self.0); Ok(()) }
     fn decode(p: &[u8]) -> Result<Self, Box<dyn std::error::Error + Send + Sync>> { Ok(M(p.to_vec())) }
 }
+/// a payload type that is itself printable and serialisable (what a user's claims type may well be):
+/// the token holding it must still be neither
+pub struct MS(pub Vec<u8>);
+impl serde::Serialize for MS { fn serialize<S: serde::Serializer>(&self, s: S) -> Result<S::Ok, S::Error> { s.serialize_bytes(&self.0) } }
+impl std::fmt::Display for MS { fn fmt(&self, f: &mut std::fmt::Formatter<'_>) -> std::fmt::Result { write!(f, "{:?}", self.0) } }
+impl Payload for MS {
+    const SUFFIX: &'static str = "";
+    fn encode(self, mut w: impl WriteBytes) -> Result<(), Box<dyn std::error::Error + Send + Sync>> { w.write(&self.0); Ok(()) }
+    fn decode(p: &[u8]) -> Result<Self, Box<dyn std::error::Error + Send + Sync>> { Ok(MS(p.to_vec())) }
+}
 fn nv() -> NoValidation<M> { NoValidation::dangerous_no_validation() }
 fn main() {}
 '''
@@ -129,6 +139,14 @@ def catalogue():
             add("unsealed-claims", f"read claims of an unsealed {b[0]} {purpose} token", u, "let _ = &u.claims.0;", True)
             for tname, bound in [("Display", "std::fmt::Display"), ("Serialize", "serde::Serialize"), ("ToString", "std::string::ToString")]:
                 add(f"unsealed-trait-{tname}", f"unsealed {b[0]} {purpose} token used where `{bound}` is required", u, f"fn needs<T: {bound}>(_: &T) {{}} needs(u);", False)
+            # ... not even by standing in for its claims (Deref / deref coercion / method auto-deref)
+            us = f"u: &UnsealedToken<{vty(b)}, {purpose}, MS>"
+            add("unsealed-deref", f"unsealed {b[0]} {purpose} token used where `std::ops::Deref` is required", u, "fn needs<T: std::ops::Deref>(_: &T) {} needs(u);", False)
+            add("unsealed-deref", f"coerce an unsealed {b[0]} {purpose} token to its claims", u, "let _: &M = u;", False)
+            add("unsealed-deref", f"to_string() an unsealed {b[0]} {purpose} token whose claims are Display", us, "let _ = u.to_string();", False)
+            add("unsealed-deref", f"method-call serialise an unsealed {b[0]} {purpose} token whose claims are Serialize", us, "{ use serde::Serialize; let _ = u.serialize(serde_json::value::Serializer); }", False)
+            add("unsealed-deref", f"pass an unsealed {b[0]} {purpose} token where its Serialize claims are expected", us, "let _ = serde_json::to_string::<MS>(u);", False)
+            add("unsealed-claims", f"read the Display / Serialize claims of an unsealed {b[0]} {purpose} token explicitly", us, "let _ = (u.claims.to_string(), serde_json::to_string(&u.claims));", True)
             add("sealed-display", f"Display a sealed {b[0]} {purpose} token", t, "let _ = format!(\"{}\", t);", True)
             add("sealed-serde", f"serde-serialise a sealed {b[0]} {purpose} token", t, "let _ = serde_json::to_string(t);", True)
             # C12 accessor clause: the footer of a not-yet-verified token only through unverified_footer()
@@ -310,7 +328,7 @@ def main():
     write_evidence("C18", tier, "exploration", {
         "evaluations": len(progs),
         "distinct_nontrivial": len(rej) + sum(1 for p in acc if p.cls in ("seal", "unseal", "wrap-pie", "seal-key", "unseal-key")),
-        "rule": "generated catalogue: product of (back-end crate of the key) x (back-end crate of the token) x purpose x key kind {Local, Public, Secret, PkePublic, PkeSecret} x operation {seal, unseal, sign/encrypt/verify/decrypt aliases (+_with_aad), wrap_pie (by kind of wrapped and wrapping key), password_wrap, seal-key, unseal-key, Display / to_string / Debug / serde / field access / AsRef / == on keys, every key kind against a list of trait bounds through which key material could leak or be compared implicitly (Display, ToString, Debug, LowerHex, Serialize, Hash, PartialEq, PartialOrd, AsRef<[u8]>, Borrow<[u8]>, Deref<Target=[u8]>, Copy, Default; Clone allowed), Display / to_string / serde on unsealed tokens, private fields of sealed tokens, Debug and conversion traits on sealed tokens, purpose / kind / version coercions}; each program is one function whose marked statement carries the (mis)use; a type model written from the property text predicts compile / reject; rustc is the ground truth: every predicted-reject program must have an error on its marked line (codes E0277/E0308/E0599/E0616/E0609/E0369), every predicted-compile program (the well-typed twins) must compile. Non-trivial iff predicted reject, or a well-typed twin of a key/token operation; distinct by program text",
+        "rule": "generated catalogue: product of (back-end crate of the key) x (back-end crate of the token) x purpose x key kind {Local, Public, Secret, PkePublic, PkeSecret} x operation {seal, unseal, sign/encrypt/verify/decrypt aliases (+_with_aad), wrap_pie (by kind of wrapped and wrapping key), password_wrap, seal-key, unseal-key, Display / to_string / Debug / serde / field access / AsRef / == on keys, every key kind against a list of trait bounds through which key material could leak or be compared implicitly (Display, ToString, Debug, LowerHex, Serialize, Hash, PartialEq, PartialOrd, AsRef<[u8]>, Borrow<[u8]>, Deref<Target=[u8]>, Copy, Default; Clone allowed), Display / to_string / serde on unsealed tokens (also through Deref, deref coercion and method auto-deref onto printable claims), private fields of sealed tokens, Debug and conversion traits on sealed tokens, purpose / kind / version coercions}; each program is one function whose marked statement carries the (mis)use; a type model written from the property text predicts compile / reject; rustc is the ground truth: every predicted-reject program must have an error on its marked line (codes E0277/E0308/E0599/E0616/E0609/E0369), every predicted-compile program (the well-typed twins) must compile. Non-trivial iff predicted reject, or a well-typed twin of a key/token operation; distinct by program text",
         "samples": samples,
         "class_histogram": classes,
         "programs": len(progs), "predicted_reject": len(rej), "predicted_compile": len(acc),
